@@ -22,7 +22,7 @@ class Ref(object):
 
 def make_reference(rng, work, n_levels=None, n_leaves=None, n_genes=None,
                    cells_per_leaf=(4, 10), encoding='csr', name='ref',
-                   rich=False, forest=None):
+                   rich=False, forest=None, nested_siblings=False):
     """
     labelled raw-count reference with separable clusters; rich=True: the
     root and at least one node of every other non-leaf level have two or
@@ -57,6 +57,18 @@ def make_reference(rng, work, n_levels=None, n_leaves=None, n_genes=None,
     for lf in model.leaves:
         on[lf] = set(int(x) for x in rng.choice(
             ng, size=int(rng.integers(3, max(4, ng // 3))), replace=False))
+    if nested_siblings and d >= 2:
+        # one parent with exactly two leaves a, b where b expresses what a
+        # expresses plus a few genes more: every marker of the pair points
+        # the same way
+        up = model.hierarchy[-2]
+        for pn in model.nodes[up]:
+            kids = model.children(up, pn)
+            if len(kids) == 2:
+                a, b = kids
+                extra = [j for j in range(ng) if j not in on[a]][:4]
+                on[b] = set(on[a]) | set(extra)
+                break
     X = []
     labels = []
     cells = []
@@ -105,6 +117,20 @@ def run_stats(ref, out, tmp_dir, n_processors=2, rows_at_a_time=7,
             taxonomy_tree=None, output_path=out,
             rows_at_a_time=rows_at_a_time, normalization=normalization,
             tmp_dir=str(tmp_dir), n_processors=n_processors)
+
+
+def run_stats_with_tree(ref, out, tmp_dir, tree_dict, n_processors=2,
+                        rows_at_a_time=7, normalization='raw'):
+    """the statistics stage entered with an explicit taxonomy tree"""
+    from cell_type_mapper.diff_exp.precompute_from_anndata import (
+        precompute_summary_stats_from_h5ad_and_tree)
+    from cell_type_mapper.taxonomy.taxonomy_tree import TaxonomyTree
+    with quiet():
+        precompute_summary_stats_from_h5ad_and_tree(
+            data_path=ref.path, taxonomy_tree=TaxonomyTree(data=tree_dict),
+            output_path=out, rows_at_a_time=rows_at_a_time,
+            normalization=normalization, tmp_dir=str(tmp_dir),
+            n_processors=n_processors)
 
 
 def run_ref_markers(stats_path, out, tmp_dir, n_processors=2, max_gb=1.0,
